@@ -949,6 +949,7 @@ htp_status_t htp_connp_REQ_FINALIZE(htp_connp_t *connp) {
     htp_verif_site(HTP_VERIF_SITE_REQ_FINALIZE_AS_BODY, connp, (long) len, 0);
 #endif
     // Interpret remaining bytes as body data
+    connp->in_tx->request_message_len += len;
     htp_status_t rc = htp_tx_req_process_body_data_ex(connp->in_tx, data, len);
     htp_connp_req_clear_buffer(connp);
     return rc;
